@@ -6165,7 +6165,10 @@ write_function_instance(ostream &out, FunctionRemap *remap,
 
         if (array_type != nullptr) {
           if (array_type->_bounds != nullptr) {
-            array_len = array_type->_bounds->evaluate().as_integer();
+            CPPExpression::Result bounds = array_type->_bounds->evaluate();
+            if (bounds._type != CPPExpression::RT_error) {
+              array_len = bounds.as_integer();
+            }
           }
           unwrap = array_type->_element_type;
         } else if (pointer_type != nullptr) {
